@@ -70,6 +70,18 @@ func (m *M) build(l Lazy) Value {
 		m.mergeBornGuard()
 	}
 	ts := types.TypeString(l.t, nil)
+	{
+		var best *substrFn
+		for i := range m.H.havocField {
+			hf := &m.H.havocField[i]
+			if strings.HasSuffix(l.name, hf.suffix) && (best == nil || len(hf.suffix) > len(best.suffix)) {
+				best = hf
+			}
+		}
+		if best != nil {
+			return m.call(best.fn, []Value{cStr(l.name)})
+		}
+	}
 	if h, ok := m.H.havocFuncs[ts]; ok {
 		// harness-provided constructor: func(name string) T
 		return m.call(h, []Value{cStr(l.name)})
